@@ -1155,6 +1155,7 @@ func c01Skeletons(r *findings.Run, deadline time.Time) {
 	outcomes := findings.NewDistinct()
 	var mu sync.Mutex
 	done, undef := 0, 0
+	respelled := 0
 	capped := false
 	kindsSeen := map[string]int{}
 	drive.Par(len(all), func(i int) {
@@ -1189,7 +1190,21 @@ func c01Skeletons(r *findings.Run, deadline time.Time) {
 				return // a sandbox kill that did not repeat (counted in common.go)
 			}
 			r.Fail("skeleton="+s.name+" symptom="+pv.Symptom, fmt.Sprintf("control skeleton %s: %s (%s)", s.name, pv.Symptom, pv.Detail), progReplay(pv, nil))
-		} else if strings.HasPrefix(s.name, "simple:") || i%16 == 0 {
+		} else if sp := spellings[i%len(spellings)]; i%2 == 0 || strings.HasPrefix(s.name, "simple:") {
+			// the same program in another identifier spelling (every second skeleton, every simple program; the
+			// spellings take turns): acceptance and behaviour must not depend on how names look
+			rp := renameProg(s.prog, sp.f)
+			if rv := JudgeBash(rp, ProgOpts{}); rv.Symptom != "" && rv.Symptom != "undefined" && r.Violations() <= 40 {
+				rv = confirm(rp, ProgOpts{}, rv)
+				if rv.Symptom != "" {
+					r.Fail("skeleton="+s.name+" spelling="+sp.name+" symptom="+rv.Symptom, fmt.Sprintf("control skeleton %s with %s identifiers: %s (%s)", s.name, sp.name, rv.Symptom, rv.Detail), progReplay(rv, nil))
+				}
+			}
+			mu.Lock()
+			respelled++
+			mu.Unlock()
+		}
+		if pv.Symptom == "" && (strings.HasPrefix(s.name, "simple:") || i%16 == 0) {
 			// the simple-statement programs and every sixteenth skeleton also in the compact spelling
 			if cv := JudgeBash(s.prog, ProgOpts{Compact: true}); cv.Symptom != "" && cv.Symptom != "undefined" && r.Violations() <= 40 {
 				cv = confirm(s.prog, ProgOpts{Compact: true}, cv)
@@ -1208,6 +1223,7 @@ func c01Skeletons(r *findings.Run, deadline time.Time) {
 	r.Set("skeleton_programs_distinct", distinct.Len())
 	r.Set("skeleton_distinct_expected_outputs", outcomes.Len())
 	r.Set("skeleton_skipped_undefined", undef)
+	r.Set("skeleton_programs_also_judged_in_another_identifier_spelling", respelled)
 	ks := []string{}
 	for k, n := range kindsSeen {
 		ks = append(ks, fmt.Sprintf("%s=%d", k, n))
